@@ -1596,3 +1596,161 @@ def publishers_differential(kwargs, n, seed=0):
     elif model != obs["sequence_numbers"] or obs["errors"]:
       bad.append({"schedule": k, "why": "model numbers %s, real %s" % (model, obs)})
   return {"schedules": n, "visible_operations": ops, "disagreements": bad}
+
+
+# ---- subscribers scenario (C07: several objects subscribe to one signal at once) ------------------------------------------------------------
+def registry_proxies(d):
+  """(ListProxy, registry factory) for the fabric's subscription registries: a dict of lists whose operations are visible steps"""
+  class ListProxy(list):
+    def append(self, x):
+      d.before("registries", "append")
+      return list.append(self, x)
+
+    def __add__(self, other):
+      d.before("registries", "concat_new")
+      return ListProxy(list.__add__(self, other))
+
+    def __setitem__(self, k, v):
+      if isinstance(k, slice):
+        v = list(v)
+        d.before("registries", "replace")
+      return list.__setitem__(self, k, v)
+
+    def __iter__(self):
+      i = 0
+      while True:
+        d.before("registries", "iter_next")
+        if i >= list.__len__(self):
+          return
+        yield list.__getitem__(self, i)
+        i += 1
+
+  def registry(name, items=()):
+    class KeysView:
+      def __init__(self, dd):
+        self.dd = dd
+
+      def __contains__(self, k):
+        d.before(name, "contains")
+        return dict.__contains__(self.dd, k)
+
+    class Reg(dict):
+      def __contains__(self, k):
+        d.before(name, "contains")
+        return dict.__contains__(self, k)
+
+      def __getitem__(self, k):
+        d.before(name, "getitem")
+        return dict.__getitem__(self, k)
+
+      def __setitem__(self, k, v):
+        if isinstance(v, list) and not isinstance(v, ListProxy):
+          d.before("registries", "new")          # the list literal the code has just built
+          v = ListProxy(v)
+        d.before(name, "setitem")
+        return dict.__setitem__(self, k, v)
+
+      def get(self, k, default=None):
+        d.before(name, "get_default")
+        return dict.get(self, k, default)
+
+      def keys(self):
+        return KeysView(self)
+    r = Reg()
+    for k, v in items:
+      dict.__setitem__(r, k, ListProxy(v))
+    return r
+  return ListProxy, registry
+
+
+class RealSubscribers:
+  def __init__(self, sc, sysm):
+    import collections
+    from vf import core
+    core.fresh_miros()
+    import miros.activeobject as ao
+    import miros.event as ev
+    vis, _, _ = R.visibility_from(sysm)
+    self.d = d = R.Director(vis)
+    self.info = info = sc.info
+    _lp, registry = registry_proxies(d)
+    n = info["n"]
+    self.queues = [collections.deque(maxlen=4) for _ in range(n + 1)]
+    self.fab = fab = ao.ActiveFabricSource()
+    prior = [("A", [self.queues[n]])] if info["prior"] else []
+    mine, other = ("fifo_subscriptions", "lifo_subscriptions") if info["kind"] == "fifo" else ("lifo_subscriptions", "fifo_subscriptions")
+    setattr(fab, mine, registry(mine, prior))
+    setattr(fab, other, registry(other))
+    self.sub_ev = ev.Event(signal="A")
+    self.errors = {}
+    R.auto_proxy(self.d, sc, {"fabric": self.fab})
+    self.bodies = {t: self.body(t) for t in range(n)}
+
+  def body(self, t):
+    def run():
+      try:
+        self.fab.subscribe(self.queues[0 if self.info["same"] else t], self.sub_ev, self.info["kind"])
+      except BaseException as ex:      # noqa: the failure is the observation
+        self.errors[t] = "%s: %s" % (type(ex).__name__, ex)
+    return run
+
+  def observe(self):
+    reg = getattr(self.fab, "%s_subscriptions" % self.info["kind"])
+    lst = list.__iter__(dict.get(reg, "A", []))
+    names = []
+    for q in lst:
+      names.append([i for i, x in enumerate(self.queues) if x is q][0])
+    return {"registered_queues": names, "errors": {str(k): v for k, v in self.errors.items()}, "finished": sorted(self.d.finished)}
+
+  def cleanup(self, threads):
+    self.d.release_all()
+    for t in threads.values():
+      t.join(timeout=0.5)
+
+
+def subscribers_replay(sc, sysm, res, states, infos, loop):
+  real = RealSubscribers(sc, sysm)
+  threads = {}
+  try:
+    ok, detail, threads = R.run_threads(real.d, real.bodies, triples(infos))
+    time.sleep(0.02)
+    obs = real.observe()
+  finally:
+    real.cleanup(threads)
+  return {"matched": ok, "detail": detail, "real": obs}
+
+
+def subscribers_differential(kwargs, n, seed=0):
+  from vf.e2.check import build
+  rnd = random.Random(seed)
+  bad = []
+  ops = 0
+  for k in range(n):
+    sc, sysm = build("subscribers", kwargs)
+    st = sysm.initial()
+    infos = []
+    for _ in range(120):
+      en = sysm.enabled_concrete(st)
+      if not en:
+        break
+      st, info = sysm.step_concrete(st, rnd.choice(en))
+      infos.append(info)
+    real = RealSubscribers(sc, sysm)
+    threads = {}
+    try:
+      ok, detail, threads = R.run_threads(real.d, real.bodies, triples(infos))
+      time.sleep(0.01)
+      obs = real.observe()
+    finally:
+      real.cleanup(threads)
+    ops += len(triples(infos))
+    # the model's registered list for the signal
+    dname = sc.info["dict"]
+    li = st[dname + ".v0"] if st[dname + ".size"] else 0
+    model = [st["registries.c%d_%d" % (li - 1, c)] for c in range(st["registries.len%d" % (li - 1)])] if li else []
+    model = [sc.info["queue_numbers"].index(x) for x in model]
+    if not ok:
+      bad.append({"schedule": k, "why": detail})
+    elif model != obs["registered_queues"] or obs["errors"]:
+      bad.append({"schedule": k, "why": "model registry %s, real %s" % (model, obs)})
+  return {"schedules": n, "visible_operations": ops, "disagreements": bad}
